@@ -28,11 +28,11 @@ SPEC = {
             'SecretStore with scheduling points at the message mutex and at every datastore read/write of the message-key '
             'namespaces, for the three group types, one case per schedule; stress stream: 16 goroutines x N messages with seeded '
             'random delays in every datastore access, a receiver opening every envelope; non-trivial = schedule with a '
-            'pre-emption / any stress run; distinct = distinct case term',
+            'pre-emption / any stress run; distinct = distinct case term; first-use stream: 40 (800) fresh stores, 2-6 tasks use a group nobody has used yet at once (PutGroup / GetShareableChainKey) and seal 1-4 messages each, with the seeded delays: counters exactly 1..n, stored counter n, no error',
     'trusted_base': [
         'Coq 8.16.1 kernel; vm_compute for evaluating the model on cases',
         'no axioms',
-        'translator gen/seal.go (sync skeleton of SealEnvelope: lock taken before the first chain-key read, released on return)',
+        'translator gen/seal.go (sync skeleton of SealEnvelope: lock taken before the first chain-key read, released on return; the same for getOwnDeviceChainKeyForGroup: look-up and creation of the own chain key in one critical section)',
         'sched/inject, sched/vsched, harness/secretstore (datastore wrapper with scheduling points / delays)',
         'modelled, not verified: Go mutex semantics, go-datastore',
     ],
